@@ -231,7 +231,8 @@ fn qs_run(args: &[String]) -> i32 {
     fn new_ctx(binds: &[(String, String)]) -> xml_xpath::eval::model::Context {
         let mut c = xml_xpath::eval::model::Context::default();
         for (p, u) in binds {
-            c.add_ns(Some(p.as_str()), u.as_str());
+            // an empty prefix stands for the default namespace of name tests
+            c.add_ns(if p.is_empty() { None } else { Some(p.as_str()) }, u.as_str());
         }
         c
     }
